@@ -13,6 +13,7 @@ def genCfg : Cfg where
   stapaRewritesNri := IpcHub.Gen.stapaRewritesNri
   fuaMin := IpcHub.Gen.fuaMin
   fuaNeedsStart := IpcHub.Gen.fuaNeedsStart
+  fuaKeepsF := IpcHub.Gen.fuaKeepsF
   h265Min := IpcHub.Gen.h265Min
   apChecked := IpcHub.Gen.apChecked
   fuMin := IpcHub.Gen.fuMin
@@ -31,6 +32,7 @@ def pinnedCfg : Cfg where
   stapaRewritesNri := true
   fuaMin := 0
   fuaNeedsStart := false
+  fuaKeepsF := false
   h265Min := 3
   apChecked := false
   fuMin := 0
